@@ -15,6 +15,9 @@ import PyomaVerif.Model.Plscf
   factors).  What the LAPACK / libm calls returned comes in as one record per call of `ac2mp`
   (`EigRec`, in call order) and one recorded inverse `OO` per order.
 * `fastLists` — the list-building loop of `ssi.SSI_fast` (`for ii in trange(0, ordmax + 1, step)`).
+* `legacySSI` / `legacyLists` — the legacy `ssi.SSI` after its `np.linalg.svd`: `Nch`, the loop
+  `for ii in trange(0, ordmax + 1, step)`, per pass `Obs = U1[:, :ii]·S1rad[:ii, :ii]` with the clipping of
+  the slices (`legacyObs`, `ValueError` of `np.dot` for a tall `H`), the recorded `pinv`, `A`, `C`.
 * `plscfAll` — `plscf.pLSCF`: `sgn_basf` decides BOTH the constraint (`"LO"`/`"HI"`) and the basis
   `Omega = exp(sgn_basf·1j·omega·dt)`; loop over the orders; `alpha.reshape((-1, Nch, Nch))`
   (`reshapeAd`), `np.moveaxis(beta, 1, 0)` (`moveaxisBn`); the two lists.
